@@ -1,12 +1,19 @@
 (* C05 - a submission makes progress and completes exactly once.
-   PROVED here (safety half, every accepted trace): the completion flag is set at most once, a
-   results summary was written before it, and nothing is submitted afterwards.
-   NOT PROVED in Coq (liveness half: a recovery round submits or completes; finitely many rounds; a
-   round leaves an unblocked job unsubmitted only at the max-nodes limit): decided on impl by the
-   oracles of harness/syscheck.py over all explored fault-free schedules, and at component level by
-   the maximality statements of Props/C07.v.  Stated as partial in MANIFEST.json. *)
+   PROVED here, for every accepted trace: (safety) the completion flag is set at most once, a
+   results summary was written before it, and nothing is submitted afterwards; (progress) from a
+   state in which no batch of the submission is queued or running and nobody holds the submitter
+   role, every submitter round that reaches its completion check either handed a batch to the HPC
+   or decides that the submission is complete - whatever else happens in between (refused
+   promotions, failed sbatch calls, any number of processes); (finitely many rounds) an accepted
+   trace contains at most |jobs| successful submissions.
+   NOT PROVED in Coq: that a round which is started always reaches its completion check (the real
+   code terminates; the model is an acceptor and has no notion of a process being scheduled), and
+   "a round leaves an unblocked job unsubmitted only at the max-nodes limit" at system level (proved
+   for the batching function in Props/C07.v, whose result is shown to satisfy the acceptor's batch
+   guard in SystemBridge.v): decided on impl by the oracles of harness/syscheck.py over all explored
+   fault-free schedules.  Stated as partial in MANIFEST.json. *)
 From Coq Require Import List ZArith NArith Bool.
-From Jade Require Import Base System SystemMonitors SystemProofs SystemTheorems.
+From Jade Require Import Base System SystemMonitors SystemProofs SystemTheorems SystemProgress.
 From Jade.Props Require Import SysExamples.
 Import ListNotations.
 Open Scope N_scope.
@@ -30,6 +37,25 @@ Theorem c05_summary_before_completion : forall sc tr1 p res miss tr2 s,
     (forall r, In r res -> In r (rows_of tr1)).
 Proof. exact summary_faithful. Qed.
 Print Assumptions c05_summary_before_completion.
+
+(* progress: a recovery round from a quiescent state submits or completes *)
+Theorem c05_progress : forall sc tr0 tr1 p b tr2 s0 s', run sc tr0 = Some s0 -> quiescent s0 ->
+  run sc (tr0 ++ tr1 ++ ECheckComplete p b :: tr2) = Some s' ->
+  (exists e, In e tr1 /\ sbatch_ok e = true) \/ b = true.
+Proof. exact progress_run. Qed.
+Print Assumptions c05_progress.
+
+(* finitely many rounds: each successful submission hands at least one fresh job *)
+Theorem c05_rounds_bounded : forall sc tr s, run sc tr = Some s ->
+  (length (filter sbatch_ok tr) <= length (sc_jobs sc))%nat.
+Proof. exact sbatch_bound. Qed.
+Print Assumptions c05_rounds_bounded.
+
+(* non-vacuity of c05_progress: after batch 100 of the example ended, the state is quiescent and the
+   next round (process 4) submits batch 2 *)
+Example c05_progress_nonvacuous : exists s0, run ex_sc (firstn 25 ex_tr) = Some s0 /\ quiescent s0 /\
+  nth 24 ex_tr (EKill []) = EBatchEnd 100 /\ existsb sbatch_ok (skipn 25 ex_tr) = true.
+Proof. vm_compute. eexists. repeat split; reflexivity. Qed.
 
 Example c05_nonvacuous : accepted ex_sc ex_tr = true /\ existsb is_mark_complete ex_tr = true.
 Proof. vm_compute. auto. Qed.
